@@ -8,6 +8,7 @@ import tempfile
 
 from . import tlc
 
+STDLIB = "/opt/veriftools/tlapm/lib/tlapm/stdlib"
 SPEC = os.path.join(os.path.dirname(os.path.dirname(os.path.abspath(__file__))), "spec")
 
 
@@ -20,7 +21,7 @@ def prove(module, timeout=900):
                 shutil.copy(os.path.join(SPEC, f), d)
         shutil.copy(os.path.join(SPEC, "proofs", module + ".tla"), d)
         try:
-            p = subprocess.run(["tlapm", "--cleanfp", "--threads", "8", module + ".tla"], cwd=d, stdout=subprocess.PIPE, stderr=subprocess.STDOUT,
+            p = subprocess.run(["tlapm", "--cleanfp", "--threads", "8", "-I", STDLIB, module + ".tla"], cwd=d, stdout=subprocess.PIPE, stderr=subprocess.STDOUT,
                                timeout=timeout, text=True)
         except subprocess.TimeoutExpired:
             raise tlc.MachineryError("tlapm timed out on %s" % module)
